@@ -11,6 +11,15 @@ import (
 // sync shims call the real primitives.
 var Active bool
 
+// ErrBudget is the value a hook panics with when a library call exceeds the step budget of
+// its run (a runaway loop, typically caused by state another task corrupted). The harness
+// recovers it; such a run yields no verdict on results.
+var ErrBudget = budgetError{}
+
+type budgetError struct{}
+
+func (budgetError) Error() string { return "simulation step budget exceeded" }
+
 // Access kinds.
 const (
 	Read  = 0
@@ -27,7 +36,14 @@ type SchedDecision struct {
 	To    int    `json:"to"`              // task that runs next
 	Site  int    `json:"site,omitempty"`  // yield site of From (preempt)
 	Depth int    `json:"depth,omitempty"` // call depth of From inside the library (preempt)
+	// a preemption is addressed task-locally: the Idx-th yield of class Class of task From
+	// (class 0: any yield; class 1: yields at package-variable accesses and sync operations)
+	Class int `json:"class,omitempty"`
+	Idx   int `json:"idx,omitempty"`
 }
+
+// PKey addresses a yield of one task.
+type PKey struct{ Task, Class, Idx int }
 
 type Race struct {
 	Var              int
@@ -45,7 +61,8 @@ type Task struct {
 	state   int // 0 runnable, 1 blocked, 2 done
 	vc      []uint32
 	SyncOps int // synchronisation operations performed so far
-	Yields  int
+	Yields  int // all yields so far
+	AccYields int // yields at package-variable accesses and sync operations
 	depth   int
 	CallIdx int // set by the harness: index of the call the task is executing
 	Panic   any
@@ -67,12 +84,17 @@ type Sched struct {
 	YieldN    int
 	Replay    bool
 	Rng       *Rand
-	PreemptAt map[int]bool // generate mode: yield indices at which to preempt
-	replayPre map[int]int  // replay mode: yield index -> task to switch to
+	PreemptAt map[PKey]bool // generate mode: task-local yields at which to preempt
+	replayPre map[PKey]int  // replay mode: task-local yield -> task to switch to
 	replayOth []SchedDecision
 	othPos    int
 	Decisions []SchedDecision
-	MaxYields int
+	MaxYields int // no preemptions after this many yields
+	AbortYields int // a library call that is still yielding after this many is unwound with ErrBudget
+	Overrun   bool
+	MaxTasks  int // beyond this many tasks, go statements run inline
+	GoCalls   int
+	InlineGo  int
 	OnStep    func(ran *Task, reason string) // monitors; called by the runner before every hand-off and at task end
 	done      chan struct{}
 	Deadlock  bool
@@ -101,7 +123,7 @@ type readRec struct {
 }
 
 func NewSched(rng *Rand) *Sched {
-	return &Sched{Rng: rng, PreemptAt: map[int]bool{}, MaxYields: 5_000_000,
+	return &Sched{Rng: rng, PreemptAt: map[PKey]bool{}, MaxYields: 5_000_000, MaxTasks: 192,
 		vars: map[int]*varState{}, mutexes: map[any]*simMutex{}, onces: map[*sync.Once]*simOnce{}, wgs: map[*sync.WaitGroup]*simWG{}}
 }
 
@@ -109,10 +131,10 @@ func NewSched(rng *Rand) *Sched {
 func NewReplaySched(ds []SchedDecision) *Sched {
 	s := NewSched(nil)
 	s.Replay = true
-	s.replayPre = map[int]int{}
+	s.replayPre = map[PKey]int{}
 	for _, d := range ds {
 		if d.Kind == "preempt" {
-			s.replayPre[d.Yield] = d.To
+			s.replayPre[PKey{d.From, d.Class, d.Idx}] = d.To
 		} else {
 			s.replayOth = append(s.replayOth, d)
 		}
@@ -241,16 +263,27 @@ func (s *Sched) handoff(from, to *Task) {
 	<-from.wake
 }
 
-// yield is a scheduling point of the running task.
-func (s *Sched) yield(site int) {
+// yield is a scheduling point of the running task. class 1 marks yields at
+// package-variable accesses and synchronisation operations.
+func (s *Sched) yield(site int, class int) {
 	t := s.cur
 	if t == nil {
 		return
 	}
 	n := s.YieldN
 	s.YieldN++
+	k0 := PKey{t.ID, 0, t.Yields}
+	k1 := PKey{t.ID, 1, t.AccYields}
 	t.Yields++
+	if class == 1 {
+		t.AccYields++
+	}
 	t.lastSite = site
+	if s.AbortYields > 0 && s.YieldN > s.AbortYields && t.depth > 0 {
+		s.Overrun = true
+		s.Frozen = true
+		panic(ErrBudget)
+	}
 	if s.Frozen {
 		return
 	}
@@ -259,24 +292,39 @@ func (s *Sched) yield(site int) {
 		return
 	}
 	var to *Task
+	var key PKey
 	if s.Replay {
-		if id, ok := s.replayPre[n]; ok {
+		id, ok := s.replayPre[k0]
+		key = k0
+		if !ok && class == 1 {
+			id, ok = s.replayPre[k1]
+			key = k1
+		}
+		if ok {
 			for _, c := range s.runnable(t) {
 				if c.ID == id {
 					to = c
 				}
 			}
 		}
-	} else if s.PreemptAt[n] {
-		cands := s.runnable(t)
-		if len(cands) > 0 {
-			to = cands[s.Rng.Intn(len(cands))]
+	} else {
+		hit := false
+		if s.PreemptAt[k0] {
+			hit, key = true, k0
+		} else if class == 1 && s.PreemptAt[k1] {
+			hit, key = true, k1
+		}
+		if hit {
+			cands := s.runnable(t)
+			if len(cands) > 0 {
+				to = cands[s.Rng.Intn(len(cands))]
+			}
 		}
 	}
 	if to == nil {
 		return
 	}
-	s.Decisions = append(s.Decisions, SchedDecision{Kind: "preempt", Yield: n, From: t.ID, To: to.ID, Site: site, Depth: t.depth})
+	s.Decisions = append(s.Decisions, SchedDecision{Kind: "preempt", Yield: n, From: t.ID, To: to.ID, Site: site, Depth: t.depth, Class: key.Class, Idx: key.Idx})
 	s.SwitchSeq = append(s.SwitchSeq, uint64(t.ID)<<32|uint64(uint32(site)))
 	if t.depth > 0 {
 		s.Switches++
@@ -313,7 +361,7 @@ func Enter(site int) {
 		return
 	}
 	if s := sched; s != nil && s.cur != nil {
-		s.yield(site)
+		s.yield(site, 0)
 	}
 }
 
@@ -326,7 +374,7 @@ func Access(site, v, kind int) {
 	if s == nil || s.cur == nil {
 		return
 	}
-	s.yield(site)
+	s.yield(site, 1)
 	s.access(site, v, kind)
 }
 
@@ -338,7 +386,7 @@ func SyncOp(site int) {
 	}
 	if s := sched; s != nil && s.cur != nil {
 		s.cur.SyncOps++
-		s.yield(site)
+		s.yield(site, 1)
 	}
 }
 
@@ -432,7 +480,7 @@ func (s *Sched) mutexFor(key any) *simMutex {
 func (s *Sched) lock(key any, site int, shared bool) {
 	t := s.cur
 	t.SyncOps++
-	s.yield(site)
+	s.yield(site, 1)
 	m := s.mutexFor(key)
 	for {
 		free := m.owner == nil && (shared || len(m.readers) == 0)
@@ -471,7 +519,7 @@ func (s *Sched) unlock(key any, site int, shared bool) {
 		}
 	}
 	m.waiters = nil
-	s.yield(site)
+	s.yield(site, 1)
 }
 
 func inSim() *Sched {
@@ -560,7 +608,7 @@ func OnceDo(site int, o *sync.Once, f func()) {
 	}
 	t := s.cur
 	t.SyncOps++
-	s.yield(site)
+	s.yield(site, 1)
 	so := s.onces[o]
 	if so == nil {
 		so = &simOnce{}
@@ -624,7 +672,7 @@ func WGAdd(site int, w *sync.WaitGroup, n int) {
 			}
 			g.waiters = nil
 		}
-		s.yield(site)
+		s.yield(site, 1)
 		return
 	}
 	if Active {
@@ -647,7 +695,7 @@ func WGWait(site int, w *sync.WaitGroup) {
 	if s := inSim(); s != nil {
 		t := s.cur
 		t.SyncOps++
-		s.yield(site)
+		s.yield(site, 1)
 		g := s.wgFor(w)
 		for g.n > 0 {
 			g.waiters = append(g.waiters, t)
@@ -669,7 +717,15 @@ func Go(site int, f func()) {
 	if s := inSim(); s != nil {
 		p := s.cur
 		p.SyncOps++
-		t := &Task{ID: len(s.Tasks), Fn: f, Order: p.Order, wake: make(chan struct{}, 1), parent: p.ID, CallIdx: p.CallIdx, depth: p.depth}
+		s.GoCalls++
+		if len(s.Tasks) >= s.MaxTasks {
+			// enough internal goroutines are being interleaved already: run this one inline
+			// (the child runs to completion at the go statement - a legal schedule)
+			s.InlineGo++
+			f()
+			return
+		}
+		t := &Task{ID: len(s.Tasks), Fn: f, Order: p.Order, wake: make(chan struct{}, 1), parent: p.ID, CallIdx: p.CallIdx, depth: p.depth, SyncOps: 1}
 		s.Tasks = append(s.Tasks, t)
 		// grow vector clocks
 		for _, o := range s.Tasks {
@@ -681,7 +737,7 @@ func Go(site int, f func()) {
 		t.vc[t.ID] = 1
 		p.vc[p.ID]++
 		s.startGoroutine(t)
-		s.yield(site)
+		s.yield(site, 1)
 		return
 	}
 	if Active {
